@@ -303,7 +303,8 @@ func (t *Template) Clone() (*Template, error) {
 	if err != nil {
 		return nil, err
 	}
-	ns := &nameSpace{set: make(map[string]*Template)}
+	// The clone is as strict as the original (CSPCompatible).
+	ns := &nameSpace{set: make(map[string]*Template), cspCompatible: t.nameSpace.cspCompatible}
 	ns.esc = makeEscaper(ns)
 	ret := &Template{
 		nil,
